@@ -155,11 +155,53 @@ class Seams:
                 SW.__iter__ = sim_iter
                 self.order_available = True
 
+        self.install_probes(g)
+
+    def install_probes(self, g):
+        """Optional reach probes around LazyIntervalTree.get (which of the
+        three branches ran). Missing internals = missing counter, never a
+        failure."""
+        self.branch = {}
+        self.branch_seq = []
+        self.probe_available = False
+        try:
+            LT = g.lazyintervaltree.LazyIntervalTree
+            orig = LT.get
+            seams = self
+
+            def probed_get(self_):
+                try:
+                    if self_._interval_index is None:
+                        b = "build"
+                    else:
+                        nv, ne = len(self_._value_collection), len(self_._interval_events)
+                        if ne == 0:
+                            b = "clean"
+                        elif nv < ne:
+                            b = "rebuild(pending>size)"
+                        elif nv == ne:
+                            b = "rebuild(pending==size)"
+                        else:
+                            b = "incremental(pending<size)"
+                    seams.branch[b] = seams.branch.get(b, 0) + 1
+                    if not seams.observe and len(seams.branch_seq) < 4096:
+                        seams.branch_seq.append(b[0])
+                except Exception:
+                    pass
+                return orig(self_)
+
+            LT.get = probed_get
+            self.probe_available = True
+        except Exception:
+            pass
+
     def bind(self, streams, mode):
         self.uuid_rng = streams.uuid if streams is not None else None
         self.order_rng = streams.order if streams is not None else None
         self.mode = mode if self.order_available else "sorted"
         self.observe = 0
+        self.branch = {}
+        self.branch_seq = []
 
     class _Obs:
         def __init__(self, s):
